@@ -5,7 +5,7 @@
    a theorem (PyYAML, the expression grammars and `re` are outside the model). *)
 From Coq Require Import List String ZArith Bool.
 Require Import Mistral.Model.Jv Mistral.Model.Slice Mistral.Model.Norm Mistral.Model.Schema Mistral.Model.Build Mistral.Model.SpecCache.
-Require Import Mistral.Gen.Schemas Mistral.Gen.SpecCache.
+Require Import Mistral.Gen.Schemas Mistral.Gen.SpecCache Mistral.Gen.Reparse.
 Require Import Mistral.Proofs.SliceProofs Mistral.Proofs.NormProofs Mistral.Proofs.BuildProofs Mistral.Proofs.SpecCacheProofs.
 Import ListNotations.
 Open Scope string_scope.
@@ -182,6 +182,19 @@ Theorem C14_guards_regression :
   fst (walk_wb re0 pp0 fl0 (JObj [("version", JNum 2 1); ("name", JStr "wb")])) = VOk.
 Proof. exact regression_old_witnesses. Qed.
 Print Assumptions C14_guards_regression.
+
+(* ---- strings parsed a second time ---- *)
+
+(* The 27 places of mistral/lang and mistral/expressions where the text of a string value is parsed
+   again are the recorded ones (translator, fail closed), and each of the two json.loads among them
+   catches every exception: the oracles `pp` (inline parameters) and the with-items literal of the
+   models above are total functions of the text - a literal parses or does not parse, nothing
+   escapes.  (Regular expressions and the expression grammars are judged by the run: suite `reparse`.) *)
+Theorem C14_reparse_literals_guarded :
+  forallb (fun s => snd s) json_loads_sites = true /\ List.length json_loads_sites = 2 /\
+  List.length reparse_sites = 27.
+Proof. exact reparse_json_guarded. Qed.
+Print Assumptions C14_reparse_literals_guarded.
 
 (* ---- coherence of the specification cache with the stored definitions ---- *)
 
